@@ -1,9 +1,9 @@
 package main
 
 import (
-	"os"
 	"fmt"
 	"math/big"
+	"os"
 )
 
 // Row partition prover (C10.S1, C11.O3, C15.partition).
